@@ -204,6 +204,9 @@ func ValidateParameter(ctx context.Context, input *RequestValidationInput, param
 				explode := parameter.Explode == nil || *parameter.Explode
 				populateDefaultQueryParameters(q, parameter.Name, value, explode)
 				req.URL.RawQuery = q.Encode()
+				// the input caches the parsed query: keep it in step with the request,
+				// or validating this input again would add the default a second time
+				input.QueryParams = q
 			case openapi3.ParameterInHeader:
 				req.Header.Add(parameter.Name, defaultValueToString(value))
 			case openapi3.ParameterInCookie:
